@@ -16,7 +16,13 @@ iterations of the loop the way the controller does (`instantiate_dowhile_next_it
 directory is loaded again.  The first cases of a run are driven a second time at the end, in reverse order
 (`result-depends-on-earlier-cases`: no state may leak from one load of the process to another).
 
-Oracle (model independent): same nodes, same `configurationForNode` of every node, same environment of every
+For histories with iterations a never-reloaded CONTROL experiment (same package, user variables, inputs; every
+iteration instantiated by the object that created the instance) is driven next to the subject.
+
+Oracle (model independent): after every iteration instantiated by a LOADED object: same nodes, configurations,
+environments, data references, edges and variable views as the control after the same iteration; after every load the
+user-variable views (`configuration.get_user_variables()`, `get_global_variables()` with / without the user variables)
+of the loaded object are those of the object that drove the instance before it; same nodes, same `configurationForNode` of every node, same environment of every
 node, same data references (text, method, producer or path, location), same edges after every load as the experiment
 object that drove the instance before it (the creator, or the loaded object that instantiated the last iteration);
 the parsed content of conf/flowir_instance.yaml is not changed by any load (+ store).
@@ -231,6 +237,7 @@ def gen_case(rng, tier="quick"):
     add_environments(rng, case)
     add_storage(rng, case)
     add_list_options(rng, case)
+    add_inherited_settings(rng, case)
     # the history after the creation: loads (how each names the platform and whether it may update the instance files,
     # see case_steps) and, for packages with a loop, further iterations instantiated by the object loaded last
     cycles = rng.choice([1, 1, 2, 3])
@@ -341,6 +348,53 @@ def add_list_options(rng, case):
             o = rng.choice(opts)
             ov = c.setdefault("override", {}).setdefault(rng.choice(extra), {})
             ov.setdefault(o[0], {})[o[1]] = _list_value(rng, o, 0.6)
+
+
+# settings that components INHERIT from blueprints (literal values: the stored description keeps blueprints interpolated
+# in the global / stage scope): (path, values).  Floats stay floats, ints ints (no type conversion in the model).
+INHERITED = [(("command", "environment"), None),
+             (("resourceRequest", "numberThreads"), [2, 4]),
+             (("resourceRequest", "numberProcesses"), [2, 3]),
+             (("resourceManager", "config", "walltime"), [45.0, 90.5]),
+             (("resourceManager", "lsf", "queue"), ["batch", "short"]),
+             (("resourceManager", "kubernetes", "namespace"), ["ns-a", "ns-b"]),
+             (("workflowAttributes", "maxRestarts"), [1, 2, 6]),
+             (("workflowAttributes", "memoization", "disable", "strong"), [True]),
+             (("command", "expandArguments"), ["none", "double-quote"])]
+
+
+def add_inherited_settings(rng, case):
+    """blueprints (default / selected and other platforms; global / the stage of the loop or another stage) that give
+    components - the ones of a DoWhile document above all, which set next to nothing themselves - non-default settings:
+    environment, resource request, resource manager options, workflow attributes"""
+    main = case["main"]
+    loop = bool(case.get("dowhile"))
+    if rng.random() >= (0.8 if loop else 0.3):
+        return
+    nstages = 1 + max(int(c.get("stage", 0)) for c in main["components"])
+    stage = 1 if loop else rng.randrange(nstages)
+    envs = main.get("environments")
+    if not envs:
+        envs = main["environments"] = {"default": {"loopenv": {"DEFAULTS": "PATH", "OMP_NUM_THREADS": "2"}}}
+        for p in main["platforms"]:
+            if p != "default" and rng.random() < 0.5:
+                envs[p] = {"loopenv": {"DEFAULTS": "PATH", "OMP_NUM_THREADS": "8-%s" % p}}
+    env_names = sorted(envs.get("default") or {})
+    layers = [("default", "global"), ("default", "stage")]
+    for p in main["platforms"]:
+        if p != "default":
+            layers += [(p, "global"), (p, "stage")]
+    picked = rng.sample(INHERITED, rng.randint(2, 5))
+    used = False
+    for p, scope in layers:
+        if rng.random() < (0.35 if p not in ("default", case["platform"]) else 0.7):
+            bp = main.setdefault("blueprint", {}).setdefault(p, {})
+            d = bp.setdefault("global", {}) if scope == "global" else bp.setdefault("stages", {}).setdefault(stage, {})
+            for path, values in rng.sample(picked, rng.randint(1, len(picked))):
+                _set_path(d, path, rng.choice(values if values is not None else env_names))
+                used = True
+    if used:
+        case["inherited"] = sorted(".".join(pth) for pth, _v in picked)
 
 
 FOLDER_NAMES = ["refdata", "shared", "tables", "lib-x", "Nest"]
@@ -502,7 +556,34 @@ def snapshot(exp, inst, rebuilt_edges=False):
         folders = sorted(set(g.configuration.top_level_folders))
     except Exception as exc:  # noqa
         folders = ["error:" + type(exc).__name__]
-    return {"nodes": nodes, "edges": edges, "live_edges": live, "folders": folders}
+    return {"nodes": nodes, "edges": edges, "live_edges": live, "folders": folders, "views": variable_views(exp)}
+
+
+def canon_vars(d):
+    """a variables dictionary ({name: value} or {'global': {...}, 'stages': {index: {...}}}) with values as text (the
+    type of a value that went through a YAML file is not compared) and keys as strings"""
+    if isinstance(d, dict):
+        return {str(k): canon_vars(v) for k, v in sorted(d.items(), key=lambda kv: str(kv[0]))}
+    return var_text(d) if not isinstance(d, float) else "float:%r" % d
+
+
+def variable_views(exp):
+    """the variable views of the configuration object that tools and the interface hooks consume: the user-supplied
+    variables (empty sections dropped) and the global variables with / without the user-supplied ones layered on top"""
+    conf = exp.configuration
+    out = {}
+    try:
+        uv = canon_vars(conf.get_user_variables())
+        uv = {"global": uv.get("global") or {}, "stages": {k: v for k, v in (uv.get("stages") or {}).items() if v}}
+        out["user"] = uv
+    except Exception as exc:  # noqa
+        out["user"] = {"error": type(exc).__name__}
+    for key, flag in (("global+user", True), ("global", False)):
+        try:
+            out[key] = canon_vars(conf.get_global_variables(include_user_variables=flag))
+        except Exception as exc:  # noqa
+            out[key] = {"error": type(exc).__name__}
+    return out
 
 
 def canon_flowir(doc):
@@ -693,6 +774,23 @@ def run_impl(case, tmp):
         for _ in range(case["iterations"]):
             iteration += 1
             next_iteration(exp, iteration)
+        # the never-reloaded CONTROL: the same package, the same user variables and inputs, the same iterations - all of
+        # them instantiated by the object that created the instance (what happens when the experiment is not restarted)
+        ctl = None
+        if any(st["op"] == "iterate" for st in steps) and not case["patches"]:
+            try:
+                croot = os.path.join(tmp, "control")
+                os.makedirs(croot)
+                ep2 = S.ExperimentPackage.packageFromLocation(location, manifest=manifest, platform=platform)
+                ctl = D.Experiment.experimentFromPackage(ep2, location=croot, variable_files=vfiles or None,
+                                                         platform=platform, inputs=inputs or None)
+                ctl.validateExperiment(checkExecutables=False)
+                for i in range(case["iterations"]):
+                    next_iteration(ctl, i + 1)
+                out["control"] = {}
+            except Exception as exc:  # noqa
+                out["control_error"] = "%s: %s" % (type(exc).__name__, str(exc)[:300])
+                ctl = None
         for p in case["patches"]:
             g.setOptionForNode(p["node"], p["key"], p["value"])
         if case.get("explicit_store", True):
@@ -719,6 +817,14 @@ def run_impl(case, tmp):
                     return out
                 out["refs"].append(snapshot(cur, inst, rebuilt_edges=True))
                 out["stored"].append(open(fpath, "rb").read())
+                if ctl is not None:
+                    try:
+                        next_iteration(ctl, iteration)
+                        out["control"][k] = {"by": "creator" if cur is exp else "loaded", "ref": len(out["refs"]) - 1,
+                                             "snap": snapshot(ctl, ctl.instanceDirectory.location, rebuilt_edges=True)}
+                    except Exception as exc:  # noqa
+                        out["control_error"] = "%s: %s" % (type(exc).__name__, str(exc)[:300])
+                        ctl = None
                 continue
             how = st["how"]
             out["listing"].append(listing_of(inst))
@@ -746,6 +852,10 @@ def run_impl(case, tmp):
         try:
             # the `output` folder of an instance is a link to a shadow directory outside the instance
             shutil.rmtree(exp.instanceDirectory.shadowDir.location, ignore_errors=True)
+        except Exception:  # noqa
+            pass
+        try:
+            shutil.rmtree(ctl.instanceDirectory.shadowDir.location, ignore_errors=True)
         except Exception:  # noqa
             pass
 
@@ -942,8 +1052,68 @@ def classify_platformless_restore(what, case, detail):
     return False
 
 
+def _at_path(d, dotted):
+    for k in dotted.split("."):
+        if not isinstance(d, dict) or k not in d:
+            return None
+        d = d[k]
+    return d
+
+
+def classify_blueprint_order(what, case, detail):
+    """known finding C07-stored-blueprints-reorder-layers: the running experiment layers blueprints default-global <
+    default-stage < platform-global < platform-stage; the stored description folds them into (default+platform global)
+    < (default+platform stage), so for an option path that BOTH the default blueprint of a stage and the global blueprint
+    of the selected (non-default) platform set, a component instantiated after a reload gets the default-stage value
+    where the never-reloaded experiment uses the platform-global one.  Accepted shape only: the iteration instantiated
+    after a reload differs from the control in configuration paths only (+ the environment when command.environment is
+    such a path), every differing path of a node of stage s is set by blueprint.default.stages[s] and by
+    blueprint.<platform>.global and not by blueprint.<platform>.stages[s], the reloaded value is the default-stage
+    one and the control value the platform-global one."""
+    if what != "iteration-after-reload-differs-from-never-reloaded-experiment":
+        return False
+    plat = case.get("platform")
+    if not plat or plat == "default":
+        return False
+    detail = detail or {}
+    conf = detail.get("configuration") or {}
+    if not conf:
+        return False
+    allowed = {"configuration", "environment", "step", "iteration", "loaded_by"}
+    if not set(detail) <= allowed:
+        return False
+    bps = (case.get("main") or {}).get("blueprint") or {}
+    dflt, pl = bps.get("default") or {}, bps.get(plat) or {}
+    env_explained = set()
+    for node, paths in conf.items():
+        m = re.match(r"stage(\d+)\.", node)
+        if not m:
+            return False
+        st = int(m.group(1))
+        dstage = (dflt.get("stages") or {}).get(st)
+        if dstage is None:
+            dstage = (dflt.get("stages") or {}).get(str(st)) or {}
+        pstage = (pl.get("stages") or {}).get(st)
+        if pstage is None:
+            pstage = (pl.get("stages") or {}).get(str(st)) or {}
+        pglob = pl.get("global") or {}
+        for path, vals in paths.items():
+            a, b, c = _at_path(dstage, path), _at_path(pglob, path), _at_path(pstage, path)
+            if a is None or b is None or c is not None or isinstance(a, dict) or isinstance(b, dict):
+                return False
+            if canon_conf(a, "\0") != vals.get("reloaded") or canon_conf(b, "\0") != vals.get("control"):
+                return False
+            if path == "command.environment":
+                env_explained.add(node)
+    for node in (detail.get("environment") or {}):
+        if node not in env_explained:
+            return False
+    return True
+
+
 CLASSIFIERS = {"c07_setoption_patch_before_store": classify_patch_lost,
-               "c07_platformless_restore_forgets_platform": classify_platformless_restore}
+               "c07_platformless_restore_forgets_platform": classify_platformless_restore,
+               "c07_stored_blueprints_reorder_layers": classify_blueprint_order}
 
 
 def stored_change_detail(a, b):
@@ -988,7 +1158,10 @@ def conf_views(mres, snap):
             if path.startswith("references") or ":" in val or path.startswith("override"):
                 continue
             mo[path] = val
-            io[path] = opt_text(fp[path]) if path in fp else "<absent>"
+            iv = fp.get(path)
+            if isinstance(iv, str) and iv.startswith("float:"):
+                iv = float(iv[6:])      # canon_conf spells floats `float:<repr>`; the model holds the YAML value
+            io[path] = opt_text(iv) if path in fp else "<absent>"
         model_view[cid] = {"vars": r["vars"], "opts": mo}
         impl_view[cid] = {"vars": impl_vars, "opts": io}
     return model_view, impl_view
@@ -1166,6 +1339,33 @@ def check_case(ctx, case, tmp_root, record=None):
                           only_after=[e for e in after["edges"] if e not in ref["edges"]][:10]))
         if ref["live_edges"] != ref["edges"]:
             ctx.tag("live-graph-keeps-edges-of-earlier-iterations")
+        # "including user-supplied variables": the variable views of the loaded object (what tools and the interface
+        # hooks read: get_user_variables(), get_global_variables()) are those of the object that drove the instance
+        vb, va = ref.get("views") or {}, after.get("views") or {}
+        if vb.get("user") != va.get("user"):
+            ctx.fail("user-supplied-variables-differ-after-reload", case,
+                     dict(where, before=vb.get("user"), after=va.get("user")))
+        gd = {k: {n: [(vb.get(k) or {}).get(n, "<absent>"), (va.get(k) or {}).get(n, "<absent>")]
+                  for n in sorted(set(vb.get(k) or {}) | set(va.get(k) or {}))
+                  if (vb.get(k) or {}).get(n, "<absent>") != (va.get(k) or {}).get(n, "<absent>")}
+              for k in ("global+user", "global")}
+        gd = {k: v for k, v in gd.items() if v}
+        if gd:
+            ctx.fail("global-variables-differ-after-reload", case, dict(where, diffs=gd))
+    # iterations instantiated AFTER a load, by the loaded object, against the never-reloaded control (the same package and
+    # the same iterations, all by the object that created the instance): a reloaded instance is the same experiment,
+    # so it continues the loop with the same components, configurations, environments, references and edges
+    for k, cd in sorted((out.get("control") or {}).items()):
+        if cd["by"] != "loaded":
+            continue
+        ctx.tag("iteration-after-load-compared-with-never-reloaded-control")
+        det = control_diffs(out["refs"][cd["ref"]], cd["snap"])
+        if det:
+            det.update({"step": k, "iteration": case["iterations"] + sum(1 for st in steps[:k + 1] if st["op"] == "iterate"),
+                        "loaded_by": [st["how"] for st in steps[:k] if st["op"] == "load"]})
+            ctx.fail("iteration-after-reload-differs-from-never-reloaded-experiment", case, det)
+    if out.get("control_error"):
+        ctx.tag("control-experiment-failed")
     parsed = [canon_flowir(yaml.safe_load(b)) for b in out["stored"]]
     nload = 0
     for i in range(1, len(parsed)):
@@ -1275,6 +1475,20 @@ def check_case(ctx, case, tmp_root, record=None):
                 ctx.compare("stored flowir_instance.yaml after an iteration == model session (store of the object "
                             "that iterated)", light, dec_doc(names, h["steps"][j]["stored"]),
                             dec_doc(names, stored_docs[k + 1]))
+                cd = (out.get("control") or {}).get(k)
+                ms = h["steps"][j]
+                if cd is not None and cd["by"] == "loaded" and ms.get("byLoaded"):
+                    det = control_diffs(out["refs"][cd["ref"]], cd["snap"])
+                    impl_same = not (det.get("configuration") or det.get("only_reloaded") or det.get("only_control"))
+                    ctx.tag("model:newCompsOk" if ms["newCompsOk"] else "model:new-components-outside-bpClosed/bpOrderFree")
+                    if ms["newCompsOk"] or ms["sameAsControl"] == impl_same:
+                        # (outside the hypotheses the model may tell raw from interpolated blueprint values that
+                        # resolve alike; inside them new_component_after_reload_partial says `true`)
+                        ctx.compare("model: the components a loaded experiment stores for a new iteration are those of the "
+                                    "never-reloaded control (Instance.sameComp) == same configurations in the real "
+                                    "experiments", light, ms["sameAsControl"], impl_same)
+                    else:
+                        ctx.tag("model: sameComp outside the hypotheses not comparable with resolved configurations")
                 continue
             jl = j - 1 if st["how"] in UPDATING else j
             if jl >= len(h["steps"]):
@@ -1299,6 +1513,42 @@ def check_case(ctx, case, tmp_root, record=None):
     # the instance directory
     if d is not None:
         check_dir(ctx, case, out, names, d)
+
+
+def control_diffs(got, want):
+    """differences between the snapshot of a reloaded experiment that instantiated an iteration (`got`) and the one of the
+    never-reloaded control after the same iteration (`want`); {} when they are the same experiment"""
+    det = {}
+    if sorted(got["nodes"]) != sorted(want["nodes"]):
+        det["only_reloaded"] = sorted(set(got["nodes"]) - set(want["nodes"]))
+        det["only_control"] = sorted(set(want["nodes"]) - set(got["nodes"]))
+    conf, env, refs = {}, {}, {}
+    for n in sorted(set(got["nodes"]) & set(want["nodes"])):
+        a, b = got["nodes"][n], want["nodes"][n]
+        if a["conf"] != b["conf"]:
+            fa, fb = flat_paths(a["conf"]), flat_paths(b["conf"])
+            conf[n] = {p: {"reloaded": fa.get(p, "<absent>"), "control": fb.get(p, "<absent>")}
+                       for p in diff_paths(a["conf"], b["conf"])[:8]}
+        if a["env"] != b["env"]:
+            fa, fb = flat_paths(a["env"]), flat_paths(b["env"])
+            env[n] = {p: {"reloaded": fa.get(p, "<absent>"), "control": fb.get(p, "<absent>")}
+                      for p in diff_paths(a["env"], b["env"])[:8]}
+        if a["refs"] != b["refs"]:
+            refs[n] = {"reloaded": a["refs"], "control": b["refs"]}
+    if conf:
+        det["configuration"] = conf
+    if env:
+        det["environment"] = env
+    if refs:
+        det["references"] = refs
+    if got["edges"] != want["edges"]:
+        det["edges_only_reloaded"] = [e for e in got["edges"] if e not in want["edges"]][:10]
+        det["edges_only_control"] = [e for e in want["edges"] if e not in got["edges"]][:10]
+    for key in ("user", "global+user", "global"):
+        if (got.get("views") or {}).get(key) != (want.get("views") or {}).get(key):
+            det.setdefault("variable_views", {})[key] = {"reloaded": (got.get("views") or {}).get(key),
+                                                          "control": (want.get("views") or {}).get(key)}
+    return det
 
 
 def digest(out):
@@ -1447,6 +1697,33 @@ CORPUS = [
      "history": [{"op": "load", "how": "restart"}, {"op": "iterate"}, {"op": "iterate"},
                  {"op": "load", "how": "restart"}, {"op": "iterate"}, {"op": "load", "how": "same"}],
      "layout": "dir", "folders": [], "appdeps": [], "inputs": [], "datafiles": []},
+    # known finding C07-stored-blueprints-reorder-layers: resourceRequest.numberThreads is set by the default blueprint of
+    # the stage of the loop (2) and by the global blueprint of platform hpc (4); everything else the loop inherits
+    # (environment, walltime) must survive the restart.  Restart, then the restarted experiment instantiates iteration 2
+    {"main": {"platforms": ["default", "hpc"],
+              "variables": {"default": {"global": {"v1": "1"}, "stages": {}}, "hpc": {"global": {"v1": "64"}, "stages": {}}},
+              "environments": {"default": {"loopenv": {"DEFAULTS": "PATH", "OMP_NUM_THREADS": "2"}}},
+              "blueprint": {"default": {"global": {"command": {"environment": "loopenv"}},
+                                        "stages": {1: {"resourceRequest": {"numberThreads": 2}}}},
+                            "hpc": {"global": {"resourceRequest": {"numberThreads": 4},
+                                               "resourceManager": {"config": {"walltime": 45.0}}}}},
+              "components": [{"name": "src", "stage": 0, "command": {"executable": "echo", "arguments": "%(v1)s"}},
+                             {"name": "loop", "stage": 1, "$import": "dowhile.yaml",
+                              "bindings": {"number": "stage0.src:output"}},
+                             {"name": "report", "stage": 2,
+                              "command": {"executable": "echo", "arguments": "stage1.add:output"},
+                              "references": ["stage1.add:output"]}]},
+     "dowhile": {"type": "DoWhile", "inputBindings": {"number": {"type": "output"}},
+                 "loopBindings": {"number": "stop:output"}, "condition": "stop:output",
+                 "components": [{"name": "add", "command": {"executable": "echo",
+                                                            "arguments": "number:output %(loopIteration)s %(v1)s"},
+                                 "references": ["number:output"]},
+                                {"name": "stop", "command": {"executable": "echo", "arguments": "add:output"},
+                                 "references": ["add:output"]}]},
+     "platform": "hpc", "uservars": [{"global": {"v1": "7"}, "stages": {1: {"v2": "u"}}}], "iterations": 1, "patches": [],
+     "explicit_store": False, "cycles": 2, "reloads": ["restart", "same"],
+     "history": [{"op": "load", "how": "restart"}, {"op": "iterate"}, {"op": "load", "how": "same"}],
+     "layout": "dir", "folders": [], "appdeps": [], "inputs": [], "datafiles": []},
 ]
 
 
@@ -1462,7 +1739,9 @@ def run(ctx):
                 "platform / not naming it, the read-only load of `elaunch --restart`, the read-only platform-less load of "
                 "the database front-end) with, for packages with a loop, 0-2 further iterations instantiated after a load "
                 "by the object that load returned (the creating experiment stores explicitly once more in 40% of the cases "
-                "only); the first 6 (thorough 25) cases and the corpus are repeated at the end of the run in reverse order; "
+                "only), each compared with a never-reloaded control experiment that instantiates the same iterations; 80% of "
+                "the packages with a loop (30% of the others) give components non-default settings through default/platform "
+                "global/stage blueprints (command.environment, resourceRequest, resourceManager options, workflowAttributes); the first 6 (thorough 25) cases and the corpus are repeated at the end of the run in reverse order; "
                 "non-trivial = the real Experiment loads and has >= 2 components; distinct by canonical JSON of the case")
     ctx.assumptions = [
         "variable values at global/stage scope reference only variables visible at that scope (otherwise "
@@ -1479,13 +1758,15 @@ def run(ctx):
         "the instance directory only grows between creation and reload (nothing is removed or replaced)",
         "iterations after a load are instantiated only by objects that named the platform of the instance (same / "
         "restart loads; any load when the platform is `default`): the platform-less loads are the tools, which do not run loops",
+        "blueprint values that components inherit through the generated `inherited settings` are literals (the stored "
+        "description keeps blueprints interpolated in the global / stage scope: model hypothesis bpClosed)",
         "no fault is injected into a store (C07 does not quantify over faults: atomicity of the re-store is C14's subject)",
     ]
     ctx.trusted.append("C07: PyYAML dump/load is the identity on the generated values (str, int, bool, list, dict); "
                        "FlowIR.apply_replicate is a function of the flattened description (not modelled)")
     ctx.classifiers = CLASSIFIERS
     quick = ctx.tier == "quick"
-    n = 150 if quick else 1000
+    n = 120 if quick else 600
     root = tempfile.mkdtemp(prefix="c07-")
     again = []      # (case, digest of its first run): repeated at the end, in reverse order, after all other cases
     try:
